@@ -87,7 +87,7 @@ func hostileBytes(t *rapid.T, proto vt.NamedProto, limit uint32) ([]byte, string
 func genC06(t *rapid.T, protos []vt.NamedProto) (c06Case, []string) {
 	c := c06Case{Proto: rapid.SampledFrom(protos).Draw(t, "proto").Name}
 	c.Mode = rapid.SampledFrom([]string{"server", "server", "client"}).Draw(t, "mode")
-	c.Limit = rapid.SampledFrom([]uint32{512, 4096, 65536, 0}).Draw(t, "limit")
+	c.Limit = rapid.SampledFrom([]uint32{512, 4096, 65536, 1 << 20}).Draw(t, "limit")
 	lim := c.Limit
 	if lim == 0 {
 		lim = 1 << 30
